@@ -748,6 +748,8 @@ var _ *pb.SharedGroupProposal
 //@ modifies map(clusterConn.addresses), map(clusterConn.conns)
 
 // registering a group's consumer: the first registration takes the slot, a second one is refused and changes nothing
+// (the two kinds of group a consumer can be handed: the raft group itself and a named proxy of the shared zero group)
+//@ iface storage/raft.Group in *RaftGroup, *sharedGroupProxy
 //@ func (*storage/raft.RaftGroup).RegisterProcessFn
 //@ props C14
 //@ requires [group] this != nil
